@@ -250,7 +250,17 @@ func (r *repeat) more(s bitStream) bool {
 		pCont = 0
 	}
 
-	cont := flipBiasedCoin(s, pCont)
+	var cont bool
+	if r.forceStop && r.count >= r.minCount && r.count < r.maxCount {
+		// Forced stop after too many rejections. The rejected attempts are discarded from the recording, so a
+		// replay will not know about them: record a coin word (0) that makes it stop here too, instead of a
+		// random one whose value this run ignores. Consumes the same amount of randomness as a coin flip.
+		i := s.beginGroup(coinFlipLabel, false)
+		s.drawBits(0)
+		s.endGroup(i, false)
+	} else {
+		cont = flipBiasedCoin(s, pCont)
+	}
 	if cont {
 		r.count++
 	} else {
